@@ -10,7 +10,10 @@ use crate::util::int_array_freelist::IntArrayFreeList;
 use crate::util::rust_util::zeroed_alloc::new_zeroed_vec;
 use crate::util::Address;
 use std::cell::UnsafeCell;
+#[cfg(not(mmtk_verif))]
 use std::sync::{Mutex, MutexGuard};
+#[cfg(mmtk_verif)]
+use crate::util::verif::sync::{Mutex, MutexGuard};
 
 pub struct Map32 {
     sync: Mutex<()>,
